@@ -1,0 +1,6 @@
+//go:build verif
+
+package bus
+
+// VerifCapabilityMapSizeMax is the entry limit of ReadCapabilityMap.
+const VerifCapabilityMapSizeMax = capabilityMapSizeMax
